@@ -66,6 +66,7 @@ namespace {
 
 class SQLiteBuildDB : public BuildDB {
   /// Version History:
+  /// * 18: Store key names with TEXT affinity (numeric-looking keys were rewritten).
   /// * 17: Revert 15
   /// * 16: Add checksum field to FileInfo.
   /// * 15: Add barriers in dependency list.
@@ -80,7 +81,7 @@ class SQLiteBuildDB : public BuildDB {
   /// * 6: Added `ordinal` field for dependencies.
   /// * 5: Switched to using `WITHOUT ROWID` for dependencies.
   /// * 4: Pre-history
-  static const int currentSchemaVersion = 17;
+  static const int currentSchemaVersion = 18;
 
   std::string path;
   uint32_t clientSchemaVersion;
@@ -226,7 +227,7 @@ class SQLiteBuildDB : public BuildDB {
         result = sqlite3_exec(
           db, ("CREATE TABLE key_names ("
                "id INTEGER PRIMARY KEY, "
-               "key STRING UNIQUE);"),
+               "key TEXT UNIQUE);"),
           nullptr, nullptr, &cError);
       }
       if (result == SQLITE_OK) {
